@@ -77,6 +77,14 @@ fn header_value(h: &str) -> Option<String> {
         "wronguser" => Some(http::basic("intruder", PASS)),
         "wrongpass" => Some(http::basic(USER, "guess")),
         "malformed" => Some("Basic !!!not-base64!!!".to_string()),
+        "empty" => Some(String::new()),
+        "scheme_only" => Some("Basic".to_string()),
+        "truncated" => {
+            let mut c = http::basic(USER, PASS);
+            c.pop();
+            Some(c)
+        }
+        "extended" => Some(format!("{}A", http::basic(USER, PASS))),
         _ => Some(http::basic(USER, PASS)),
     }
 }
@@ -93,7 +101,7 @@ fn classify(v: &Value) -> &'static str {
     "answer"
 }
 
-pub fn run(cases_path: &str, out_path: &str) -> i32 {
+pub fn run(cases_path: &str, out_path: &str, only: Option<bool>) -> i32 {
     let cases: Vec<Value> = serde_json::from_str(&std::fs::read_to_string(cases_path).expect("cases")).expect("cases json");
     let rt = tokio::runtime::Builder::new_multi_thread().worker_threads(4).enable_all().build().unwrap();
     let mut results = Vec::new();
@@ -101,6 +109,9 @@ pub fn run(cases_path: &str, out_path: &str) -> i32 {
     let mut executed_n = 0u64;
     let mut refused_n = 0u64;
     for auth_on in [true, false] {
+        if only.is_some() && only != Some(auth_on) {
+            continue;
+        }
         let dir = tempfile::TempDir::new().unwrap();
         let port = http::free_port();
         let cfg = http::server_config(dir.path(), port, "regtest", true, if auth_on { Some((USER, PASS)) } else { None });
@@ -285,7 +296,7 @@ pub fn run(cases_path: &str, out_path: &str) -> i32 {
         std::thread::sleep(std::time::Duration::from_millis(200));
     }
     let bad = !violations.is_empty();
-    let report = json!({"cases": cases.len(), "expected_executed": executed_n, "expected_refused": refused_n,
+    let report = json!({"cases": cases.iter().filter(|c| only.is_none() || c["auth"].as_bool() == only).count(), "expected_executed": executed_n, "expected_refused": refused_n,
                         "violations": violations, "samples": results});
     std::fs::write(out_path, serde_json::to_string_pretty(&report).unwrap()).unwrap();
     if bad { 1 } else { 0 }
